@@ -1,5 +1,6 @@
 from vf.runner import Obl
 from vf.props.common import *
+from vf import planenv
 EXPLANATION = ('Bounded model checking (cbmc, SAT) of the real translation units with exactly-sized buffers: '
                'L1 = one API call of soxr.c + data-io.c from an arbitrary API state over the abstract engine; '
                'pointer, bounds, overflow, shift, float->int conversion and division checks instrumented by cbmc, '
@@ -25,4 +26,6 @@ def obligations(tier):
     obls += [plan_obl(0), plan_obl(1), plan_obl(1, 0), plan_obl(2)]      # planner pieces of cr.c (set_dft_length / dft_stage_init / validation prefix)
     obls.append(init_qq_obl())      # real _soxr_init for the quick recipe: cubic stage inside its envelope
     obls.append(plan_obl(3))      # the halving loop of _soxr_init terminates for every finite ratio
+    obls += dft_set(tier)      # the DFT stage: block bookkeeping and phase carry of the real dft_stage_fn
+    obls += planenv.obls(tier)      # ENV-(b): plans of the real _soxr_init inside the envelope the kernel obligations assume (enumeration, labelled)
     return obls
